@@ -583,7 +583,9 @@ func c16Cases(full bool) []c16Case {
 			}
 		}
 	}
-	for _, s := range []string{"", "HTTP/1.1 -5 X", "HTTP/1.1 99 X", "HTTP/1.1 1000 X", "HTTP/1.1 99999 X", "HTTP/1.1 2e2 X", "garbage 200 OK", "200 OK", "HTTP/1.1 200", "HTTP/1.1  200 OK", "ICY 200 OK", "HTTP/1.1 +200 OK", "HTTP/1.1 0200 OK", "HTTP/1.1 0x10 OK", "HTTP/1.1 ２００ OK"} {
+	for _, s := range []string{"", "HTTP/1.1 -5 X", "HTTP/1.1 99 X", "HTTP/1.1 1000 X", "HTTP/1.1 99999 X", "HTTP/1.1 2e2 X", "garbage 200 OK", "200 OK", "HTTP/1.1 200", "HTTP/1.1  200 OK", "ICY 200 OK", "HTTP/1.1 +200 OK", "HTTP/1.1 0200 OK", "HTTP/1.1 0x10 OK", "HTTP/1.1 ２００ OK",
+		// digits of other scripts in the version
+		"HTTP/１.１ 200 OK", "HTTP/1.١ 200 OK", "HTTP/\U0001D7CF.1 200 OK", "HTTP/१.1 200 OK"} {
 		if !inStatusGrammar(s) {
 			add("status", "reject", s, "")
 		}
